@@ -503,6 +503,8 @@ LEMMAS.update({
     "degree30_definition": {"kind": "definition", "params": ["s", "R"],
                             "ensures": ["implies(degree30(s), forall(lambda a: implies(0 <= a and a < len(R), card(nbrs(R, a)) <= 29)))"]},
     "numeral_definition": {"kind": "definition", "params": ["t"], "shapes": ["str"], "ensures": ["numeral(t) == matches(t, DIGITS)"]},
+    "numeral_definition_all": {"kind": "definition", "params": ["L"], "shapes": ["list[str]"],
+                               "ensures": ["forall(lambda q: numeral(L[q]) == matches(L[q], DIGITS), pats=['L[q]'])"]},
     "esum_definition": {"kind": "definition", "params": ["P"], "ensures": ["esum_def(P)"]},
     # Python facts about str.split / int() / str()
     "split3": {"kind": "assumed-external", "params": ["a", "b", "c"], "shapes": ["str", "str", "str"],
@@ -625,7 +627,10 @@ class convert_to_dot_bracket:
         {"when": "before", "at": "logging.warning('POA: failed", "label": "solver-raised", "do": ["let RAISED = True"]},
         {"when": "before", "at": "i, order = map(", "label": "parse-name",
          "do": ["let VI = GI[ident(variable)]", "let VJ = GJ[ident(variable)]", "assert parses_as(name, VI, VJ)",
-                "use numeral_definition(name.split('_')[1])", "use numeral_definition(name.split('_')[2])"]},
+                # int() of every element of name.split('_')[1:]: stated position-wise (the engine's raise condition quantifies
+                # over the position), numerals unfolded to the regular language only here
+                "assert forall(lambda q: implies(1 <= q and q < 3, numeral(name.split('_')[q])), pats=[\"name.split('_')[q]\"])",
+                "use numeral_definition_all(name.split('_'))"]},
         {"when": "after", "at": "i, order = map(", "label": "parsed", "do": ["assert i == VI and order == VJ"]},
         {"when": "before", "at": "return self.__make_dot_bracket(regions, orders)", "label": "read-back",
          "do": ["forall a | use esum_witness(P0, a, max_order) | "
